@@ -6,6 +6,7 @@
 -/
 import Scc.RV.RefInit
 import Scc.RV.RefSwitch
+import Scc.RV.RefInvoke
 import Scc.Props.C06Generic
 
 set_option linter.unusedVariables false
@@ -17,42 +18,9 @@ open Scc Scc.AxCut Scc.AxCut.Pos Scc.Backend Scc.Backend.Abs Scc.Backend.Sim Scc
 open Scc.Backend.Sim2 Scc.Backend.Keys
 open Scc.Props.C14Generic (LabelSafe)
 open Scc.Props.C06Generic (outAfter WithinCapacity Reachable EnoughHeap CodeFits fits_of_codeFits
-  kinds_of_fieldsTyped chiTys_fst fresh_of_nodup_snoc take_of_append)
+  kinds_of_fieldsTyped chiTys_fst fresh_of_nodup_snoc take_of_append clausesMatch_length)
 open Scc.Heap (HState InvS InvW)
 open Scc.Heap.Refine (HRef FrLe Room)
-
-mutual
-  /-- the statements of the run: no `print` (RV64 cannot print), no closures (`create`, `invoke`) -/
-  def StmtOK : Stmt → Prop
-    | .lit _ _ next _ => StmtOK next
-    | .op _ _ _ _ next _ => StmtOK next
-    | .print _ _ _ _ => False
-    | .ifc _ _ _ t e => StmtOK t ∧ StmtOK e
-    | .exit _ => True
-    | .call _ _ => True
-    | .subst _ next => StmtOK next
-    | .letS _ _ _ _ next _ => StmtOK next
-    | .switch _ _ clauses _ => ClausesOK clauses
-    | .create _ _ _ _ _ _ _ => False
-    | .invoke _ _ _ _ => False
-  def ClausesOK : Clauses → Prop
-    | .nil => True
-    | .cons _ _ body rest => StmtOK body ∧ ClausesOK rest
-end
-
-/-- every definition `StmtOK` -/
-def ProgOK (p : AxCut.Prog) : Prop := ∀ d ∈ p.defs, StmtOK d.body
-
-theorem clausesOK_nth : ∀ {cs : Clauses} {i : Nat} {c : Clause}, ClausesOK cs → nthClause cs i = some c →
-    StmtOK c.body
-  | .nil, _, _, _, h => by simp [nthClause] at h
-  | .cons x ctx body rest, 0, c, hd, h => by
-    simp only [nthClause, Option.some.injEq] at h
-    subst h
-    exact hd.1
-  | .cons x ctx body rest, i + 1, c, hd, h => by
-    simp only [nthClause] at h
-    exact clausesOK_nth hd.2 h
 
 theorem FrLe.refl' (s : HState) {δ : Nat} : FrLe s s δ :=
   ⟨rfl, rfl, fun _ _ _ _ _ _ _ _ _ _ J J' => by
@@ -61,62 +29,87 @@ theorem FrLe.refl' (s : HState) {δ : Nat} : FrLe s s δ :=
 theorem FrLe.mono' {s s' : HState} {a b : Nat} (h : FrLe s s' a) (hab : a ≤ b) : FrLe s s' b :=
   ⟨h.1, h.2.1, fun _ _ _ _ _ _ _ _ _ _ J J' => by have := h.2.2 _ _ _ _ _ _ _ _ _ _ J J'; omega⟩
 
-/-- THE THREE-WAY RELATION at a statement boundary -/
-def Rel3 (mc : MonCfg) (α : Word → Word) (ks : List Code) (P : Abs.Program) (hooks : Bool) (prog : AxCut.Prog)
+/-- THE THREE-WAY RELATION at a statement boundary: Theorem A's relation, the representation relation of the
+RV64 machine (with the machine words `cw`, `τ` of the closures), the representation of the values with the
+machine words of the closures, and the RV64 code of the current statement at the program counter -/
+def Rel3 (mc : MonCfg) (ks : List Code) (P : Abs.Program) (hooks : Bool) (prog : AxCut.Prog)
     (st : Pos.State) (cfg : Config) (hs : HState) (X : State) : Prop :=
-  ∃ (Γ' : Ctx) (ι : Nat → Nat), Γ'.keys = st.ctx.keys ∧ RelX P hooks prog ⟨Γ', st.env, st.stmt⟩ cfg ∧
-    X3 mc α Γ' cfg hs ι X ∧
+  ∃ (Γ' : Ctx) (ι : Nat → Nat) (cw : Nat → Word) (τ : Nat → Nat → Word),
+    Γ'.keys = st.ctx.keys ∧ RelX P hooks prog ⟨Γ', st.env, st.stmt⟩ cfg ∧
+    X3 mc cw τ Γ' cfg hs ι X ∧
+    CVals P hooks prog.types (KMethodsAt ks hooks prog.types) cw τ cfg.heap cfg.temps Γ' st.env ∧
     ∃ k k' items, (codeStatementR rvBackend hooks natRen prog.types st.stmt Γ').run k = .ok (items, k') ∧
       KAt ks X.pc items
 
 /-- the three-way simulation claim for one step of the positional machine -/
-def StepSim3 (mc : MonCfg) (α : Word → Word) (pr : RV.Program) (ks : List Code) (P : Abs.Program) (hooks : Bool)
+def StepSim3 (mc : MonCfg) (pr : RV.Program) (ks : List Code) (P : Abs.Program) (hooks : Bool)
     (prog : AxCut.Prog) (st : Pos.State) (cfg : Config) (hs : HState) (X : State) : Prop :=
   match Pos.step prog st with
   | .next st' o =>
     WithinCapacity st'.ctx → st'.ctx.length ≤ 14 →
     ∃ cfg' hs' X', Reach pr mc X X' ∧ cfg'.next ≤ cfg.next + 1 ∧
-      FrLe hs hs' (64 * 14) ∧ Rel3 mc α ks P hooks prog st' cfg' hs' X' ∧ StmtOK st'.stmt
+      FrLe hs hs' (64 * 14) ∧ Rel3 mc ks P hooks prog st' cfg' hs' X'
   | .done v => ∃ XL, Reach pr mc X XL ∧ ∀ fuel, (runLoop pr mc (fuel + 1) XL).res = .done v
   | .stuck _ => True
 
+/-- a context of integers: no closure to represent -/
+theorem cvals_of_ints {P : Abs.Program} {hooks : Bool} {types : List TypeDecl} {Q : Word → Ctx → Clauses → Prop}
+    {cw : Nat → Word} {τ : Nat → Nat → Word} {h : Heap} {σ : Temps} {Γ : Ctx} {ns : List Word}
+    (V : ValsOK2 P hooks types h σ Γ (ns.map .int)) : CVals P hooks types Q cw τ h σ Γ (ns.map .int) := by
+  intro i h1 h2
+  have := (V i h1 h2).1
+  have hg : (ns.map Value.int)[i] = .int (ns[i]'(by simpa using h2)) := by simp
+  rw [hg] at this ⊢
+  generalize (σ.get (2 * i + 1)).getD 0 = w at this ⊢
+  generalize (if (Γ[i].chi == Chi.ext) = true then none else σ.get (2 * i)) = p at this ⊢
+  cases this
+  exact .int _ _ _
+
 section Run3
 
-variable {mc : MonCfg} {α : Word → Word} {pr : RV.Program} {ks : List Code} (L : Loaded pr ks)
+variable {mc : MonCfg} {pr : RV.Program} {ks : List Code} (L : Loaded pr ks)
   (hndL : (labs ks).Nodup) (hheap : mc.heap = false) {ic : Nat} (hclean : labIdx ks "cleanup" = some ic)
+  (hicl : ic + 1 = ks.length)
   (hfitX : codeBase + 4 * icount ks < 2 ^ 64)
 
-include L hndL hheap hclean hfitX in
-/-- THE THREE-WAY STEP: Theorem A's `TheoremA_full` with the RV64 machine carried along -/
+include L hndL hheap hclean hicl hfitX in
+/-- THE THREE-WAY STEP: Theorem A's `TheoremA_full` with the RV64 machine carried along (all statements; a
+`print` has no RV64 code, so it cannot be the current statement) -/
 theorem step3 (hooks : Bool) (prog : AxCut.Prog) (c : Nat) (code : List MockOp) (nargs c' : Nat)
     (hcomp : (compile mockSym hooks prog).run c = .ok ((code, nargs), c'))
     (hsafe : LabelSafe prog = true) (htp : LinTypedProg prog) (hfit : CodeFits code)
-    (DX : KDefsAt ks hooks prog) (hprog : ProgOK prog)
+    (DX : KDefsAt ks hooks prog)
     (st : Pos.State) (cfg : Config) (hs : HState) (X : State)
-    (R : Rel3 mc α ks (Program.ofOps code) hooks prog st cfg hs X)
-    (T : Pos.StateTyped prog st) (hheapA : EnoughHeap cfg) (hok : StmtOK st.stmt)
+    (R : Rel3 mc ks (Program.ofOps code) hooks prog st cfg hs X)
+    (T : Pos.StateTyped prog st) (hheapA : EnoughHeap cfg)
     (hroom : Room hs (64 * 15)) :
-    StepSim3 mc α pr ks (Program.ofOps code) hooks prog st cfg hs X := by
+    StepSim3 mc pr ks (Program.ofOps code) hooks prog st cfg hs X := by
   have hnodup := Scc.Props.C14Generic.labels_unique hooks prog c code nargs c' hcomp hsafe
   have D := defsAt_of_compile hooks prog c code nargs c' hcomp hnodup
   have hfits := fits_of_codeFits hfit
+  have hcl : ∀ t, t + 1 < ks.length → ks[t]? ≠ some (Code.LAB "cleanup") := by
+    intro t ht e
+    have := labIdx_of_nodup hndL e
+    rw [hclean] at this
+    injection this with this
+    omega
   obtain ⟨Γ, ρ, s⟩ := st
-  obtain ⟨Γ', ι, hk, RX, X3h, kx, kx', items, hrunX, hatX⟩ := R
+  obtain ⟨Γ', ι, cw, τ, hk, RX, X3h, CVh, kx, kx', items, hrunX, hatX⟩ := R
   obtain ⟨hty, henv⟩ := T
-  simp only at hk RX hty henv
+  simp only at hk RX hty henv CVh
   have hlenk : Γ'.length = Γ.length := keys_length hk
+  have hlenρ : ρ.length = Γ'.length := RX.len
   unfold StepSim3
-  simp only at hok
   have hcapX3 := X3h.cap
   cases hty with
   | lit hn hfr hnext =>
     rename_i x n next fv
     simp only [Pos.step]
     intro hcap hcap2
-    obtain ⟨cfg', X', h1, hm, h2, h3, h4, h5, h6⟩ := lit_x3 L hndL hheap RX (mem_ids_keys hk hfr)
+    obtain ⟨cfg', X', h1, hm, h2, h3, hF, h4, h5, h6⟩ := lit_x3 L hndL hheap RX (mem_ids_keys hk hfr)
       (by simp [WithinCapacity] at hcap; omega) X3h hrunX hatX
     exact ⟨cfg', hs, X', hm, by omega, FrLe.refl' hs,
-      ⟨Γ' ++ [⟨x, .ext, .i64⟩], ι, keys_append hk rfl, h4, h5, h6⟩, hok⟩
+      ⟨Γ' ++ [⟨x, .ext, .i64⟩], ι, cw, τ, keys_append hk rfl, h4, h5, cvals_frame_int CVh hlenρ hF rfl h4, h6⟩⟩
   | op hn ha hb hfr hnext =>
     rename_i x a o b next fv
     simp only [Pos.step]
@@ -131,12 +124,18 @@ theorem step3 (hooks : Bool) (prog : AxCut.Prog) (c : Nat) (code : List MockOp) 
         | ok v =>
           simp only [hv]
           intro hcap hcap2
-          obtain ⟨cfg', X', h1, hm, h2, h3, h4, h5, h6⟩ := op_x3 L hndL hheap RX (mem_ids_keys hk hfr)
+          obtain ⟨cfg', X', h1, hm, h2, h3, hF, h4, h5, h6⟩ := op_x3 L hndL hheap RX (mem_ids_keys hk hfr)
             (by simp [WithinCapacity] at hcap; omega)
             (by rw [readInt_keys hk]; exact hra) (by rw [readInt_keys hk]; exact hrb) hv X3h hrunX hatX
           exact ⟨cfg', hs, X', hm, by omega, FrLe.refl' hs,
-            ⟨Γ' ++ [⟨x, .ext, .i64⟩], ι, keys_append hk rfl, h4, h5, h6⟩, hok⟩
-  | print hn ha hnext => exact absurd hok (by simp [StmtOK])
+            ⟨Γ' ++ [⟨x, .ext, .i64⟩], ι, cw, τ, keys_append hk rfl, h4, h5,
+              cvals_frame_int CVh hlenρ hF rfl h4, h6⟩⟩
+  | print hn ha hnext =>
+    -- the RV64 backend has no code for `print`
+    exfalso
+    simp only [codeStatementR, run_bind_ok, run_pure_ok] at hrunX
+    obtain ⟨t, k1, _, c1, k2, h1, _⟩ := hrunX
+    cases h1
   | ifc hn ha hb ht he =>
     rename_i srt a b t e
     simp only [Pos.step]
@@ -147,13 +146,9 @@ theorem step3 (hooks : Bool) (prog : AxCut.Prog) (c : Nat) (code : List MockOp) 
       | none =>
         simp only
         intro _ _
-        obtain ⟨cfg', X', h1, hm, h2, h3, h4, h5, h6⟩ := ifc_x3 L hndL hheap (b := none) (vb := 0) RX
+        obtain ⟨cfg', X', h1, hm, h2, h3, hF, h4, h5, h6⟩ := ifc_x3 L hndL hheap (b := none) (vb := 0) RX
           (by rw [readInt_keys hk]; exact hra) rfl X3h hrunX hatX
-        refine ⟨cfg', hs, X', hm, by omega, FrLe.refl' hs, ⟨Γ', ι, hk, h4, h5, h6⟩, ?_⟩
-        show StmtOK (if Pos.evalCmp srt va 0 then t else e)
-        split
-        · exact hok.1
-        · exact hok.2
+        exact ⟨cfg', hs, X', hm, by omega, FrLe.refl' hs, ⟨Γ', ι, cw, τ, hk, h4, h5, cvals_frame CVh hF, h6⟩⟩
       | some b' =>
         simp only
         cases hrb : readInt Γ ρ b' with
@@ -161,14 +156,10 @@ theorem step3 (hooks : Bool) (prog : AxCut.Prog) (c : Nat) (code : List MockOp) 
         | ok vb =>
           simp only
           intro _ _
-          obtain ⟨cfg', X', h1, hm, h2, h3, h4, h5, h6⟩ := ifc_x3 L hndL hheap (b := some b') (vb := vb) RX
+          obtain ⟨cfg', X', h1, hm, h2, h3, hF, h4, h5, h6⟩ := ifc_x3 L hndL hheap (b := some b') (vb := vb) RX
             (by rw [readInt_keys hk]; exact hra) (by simp only; rw [readInt_keys hk]; exact hrb)
             X3h hrunX hatX
-          refine ⟨cfg', hs, X', hm, by omega, FrLe.refl' hs, ⟨Γ', ι, hk, h4, h5, h6⟩, ?_⟩
-          show StmtOK (if Pos.evalCmp srt va vb then t else e)
-          split
-          · exact hok.1
-          · exact hok.2
+          exact ⟨cfg', hs, X', hm, by omega, FrLe.refl' hs, ⟨Γ', ι, cw, τ, hk, h4, h5, cvals_frame CVh hF, h6⟩⟩
   | exit hn ha =>
     rename_i a
     simp only [Pos.step]
@@ -192,10 +183,14 @@ theorem step3 (hooks : Bool) (prog : AxCut.Prog) (c : Nat) (code : List MockOp) 
           by_cases h : Pos.chiTys Γ = Pos.chiTys d.ctx
           · exact h
           · exact absurd (Or.inl h) hsh
-        obtain ⟨cfg', X', h1, hm, h2, h3, h4, h5, h6⟩ := call_x3 L hndL hheap RX D DX hd
+        obtain ⟨cfg', X', h1, hm, h2, h3, hF, h4, h5, h6⟩ := call_x3 L hndL hheap RX D DX hd
           (by rw [keys_chiTys hk]; exact hchi) X3h hrunX hatX
-        have hdm : d ∈ prog.defs := List.mem_of_find?_eq_some hd
-        exact ⟨cfg', hs, X', hm, by omega, FrLe.refl' hs, ⟨d.ctx, ι, rfl, h4, h5, h6⟩, hprog d hdm⟩
+        have hkeys : Γ'.map (·.chi) = d.ctx.map (·.chi) := by
+          have := congrArg (List.map Prod.fst) ((keys_chiTys hk).trans hchi)
+          simp only [Pos.chiTys, List.map_map] at this
+          exact this
+        exact ⟨cfg', hs, X', hm, by omega, FrLe.refl' hs,
+          ⟨d.ctx, ι, cw, τ, rfl, h4, h5, (cvals_frame CVh hF).chi hkeys, h6⟩⟩
   | subst hn hhas hnew hnext =>
     rename_i pairs next
     simp only [Pos.step]
@@ -213,11 +208,11 @@ theorem step3 (hooks : Bool) (prog : AxCut.Prog) (c : Nat) (code : List MockOp) 
         obtain ⟨b, hb', hid, hchi, _⟩ := hasVar_keys hk (hhas p hp)
         exact ⟨b, hb', hid, hchi⟩
       have hpl : pairs.length ≤ 14 := by simpa using hcap2
-      obtain ⟨k, cfg', X', hs', h1, hm, hfr, h2, h3, h4, h5, h6⟩ := subst_x3 L hndL hheap RX
+      obtain ⟨k, cfg', X', hs', h1, hm, hfr, h2, h3, h4, h5, hcv, h6⟩ := subst_x3 L hndL hheap RX
         (nodup_keys hk hn) hnew' hold
-        (by simpa [WithinCapacity] using hcap) (by rw [build_keys hk]; exact hb) X3h hrunX hatX hpl
+        (by simpa [WithinCapacity] using hcap) (by rw [build_keys hk]; exact hb) X3h hrunX hatX hpl CVh
       exact ⟨cfg', hs', X', hm, by omega, FrLe.mono' hfr (by omega),
-        ⟨pairs.map (·.1), ι, rfl, h4, h5, h6⟩, hok⟩
+        ⟨pairs.map (·.1), ι, _, τ, rfl, h4, h5, hcv, h6⟩⟩
   | @letS _ Γ0 Γa x ty tag args sig next fv hn hsplit hkeys hs hs' hfr hnext =>
     have hlenA : Γa.length = args.length := keys_length hkeys
     have hsplit' : Γ = Γ0 ++ Γa := hsplit
@@ -237,22 +232,55 @@ theorem step3 (hooks : Bool) (prog : AxCut.Prog) (c : Nat) (code : List MockOp) 
         have hkt : Ctx.keys (Γ'.take (Γ'.length - args.length)) = Γ0.keys := by
           rw [hlenk, keys_take hk, htake]
         have hargs14 : args.length ≤ 14 := by omega
-        obtain ⟨cfg', X', hs', ι', h1, hm, hfr, h2, h3, h4, h5, h6⟩ := let_x3 L hndL hheap RX
-          (by rw [hlenk]; exact hkA) (mem_ids_keys hkt hfr) hpos
-          (by
-            simp only [WithinCapacity, htake, List.length_append, List.length_singleton] at hcap
-            rw [hlenk, hn0]; exact hcap) hheapA X3h hrunX hatX
+        have hcapL : 2 * (Γ'.length - args.length + 1) + 2 < Mock.T_TEMP := by
+          simp only [WithinCapacity, htake, List.length_append, List.length_singleton] at hcap
+          rw [hlenk, hn0]; exact hcap
+        obtain ⟨cfg', X', hs', ι', h1, hm, hfr', h2, h3, h4, h5, h6⟩ := let_x3 L hndL hheap RX
+          (by rw [hlenk]; exact hkA) (mem_ids_keys hkt hfr) hpos hcapL hheapA X3h hrunX hatX
           (hroom.mono (by omega))
-        refine ⟨cfg', hs', X', hm, h3, FrLe.mono' hfr (by omega),
-          ⟨_, ι', ?_, by rw [hlenk] at h4; exact h4, by rw [hlenk] at h5; exact h5, by rw [hlenk] at h6; exact h6⟩,
-          hok⟩
+        have hcv := let_cv RX CVh (by rw [hlenk]; exact hkA) (mem_ids_keys hkt hfr) hpos hcapL hheapA h1
+        refine ⟨cfg', hs', X', hm, h3, FrLe.mono' hfr' (by omega),
+          ⟨_, ι', cw, _, ?_, by rw [hlenk] at h4; exact h4, by rw [hlenk] at h5; exact h5,
+            by rw [hlenk] at hcv; exact hcv, by rw [hlenk] at h6; exact h6⟩⟩
         show Ctx.keys (Γ'.take (Γ.length - args.length) ++ [_]) =
           Ctx.keys (Γ.take (Γ.length - args.length) ++ [_])
         rw [htake, ← hlenk]
         exact keys_append hkt rfl
-  | @create _ Γn Γe Γc x ty clauses next fc fn d hn hsplit hkeys hd hm hcl hfr hnext =>
-    exact absurd hok (by simp [StmtOK])
-  | @switch _ Γ0 b x ty cs fv d hn hsplit hb hd hm hcl =>
+  | @create _ Γn Γe Γc x ty clauses next fc fn d hn hsplit hkeys hd hm hcl' hfr hnext =>
+    have hlenE : Γe.length = Γc.length := keys_length hkeys
+    have hsplit' : Γ = Γn ++ Γe := hsplit
+    have hkA : Γc.length ≤ Γ.length := by rw [hsplit']; simp; omega
+    simp only [Pos.step]
+    by_cases hsh : Γ.length < Γc.length ∨ ρ.length ≠ Γ.length
+    · rw [if_pos hsh]; trivial
+    · rw [if_neg hsh]
+      simp only
+      intro hcap hcap2
+      have hn0 : Γ.length - Γc.length = Γn.length := by rw [hsplit']; simp; omega
+      have htake : Γ.take (Γ.length - Γc.length) = Γn := by
+        rw [← hlenE]; exact take_of_append hsplit'
+      have hdrop : Γ.drop (Γ.length - Γc.length) = Γe := by
+        rw [hn0, hsplit']; simp
+      have hkt : Ctx.keys (Γ'.take (Γ'.length - Γc.length)) = Γn.keys := by
+        rw [hlenk, keys_take hk, htake]
+      have hkd : Ctx.keys (Γ'.drop (Γ'.length - Γc.length)) = Γc.keys := by
+        rw [hlenk, keys_drop hk, hdrop]; exact hkeys
+      have hc14 : Γc.length ≤ 14 := by omega
+      have hcapL : 2 * (Γ'.length - Γc.length + 1) + 2 < Mock.T_TEMP := by
+        simp only [WithinCapacity, htake, List.length_append, List.length_singleton] at hcap
+        rw [hlenk, hn0]; exact hcap
+      obtain ⟨cfg', X', hs', ι', m, h1, hmr, hfr', h2, h3, h4, hK, h5, h6⟩ := create_x3 L hndL hheap RX
+        (by rw [hlenk]; exact hkA) hkd (mem_ids_keys hkt hfr) hcapL hheapA X3h hrunX hatX
+        (hroom.mono (by omega))
+      have hcv := create_cv RX CVh (by rw [hlenk]; exact hkA) hkd (mem_ids_keys hkt hfr) hcapL hheapA hK h1
+      refine ⟨cfg', hs', X', hmr, h3, FrLe.mono' hfr' (by omega),
+        ⟨_, ι', _, _, ?_, by rw [hlenk] at h4; exact h4, by rw [hlenk] at h5; exact h5,
+          by rw [hlenk] at hcv; exact hcv, by rw [hlenk] at h6; exact h6⟩⟩
+      show Ctx.keys (Γ'.take (Γ.length - Γc.length) ++ [_]) =
+        Ctx.keys (Γ.take (Γ.length - Γc.length) ++ [_])
+      rw [htake, ← hlenk]
+      exact keys_append hkt rfl
+  | @switch _ Γ0 b x ty cs fv d hn hsplit hb hd hm hcl' =>
     subst hsplit
     obtain ⟨ρ', v, rfl, hρ', hv⟩ := Pos.env_last henv
     have hbid : b.var.id = x.id := congrArg (·.1) hb
@@ -282,45 +310,96 @@ theorem step3 (hooks : Bool) (prog : AxCut.Prog) (c : Nat) (code : List MockOp) 
       have hkinds : fields.map Sim2.kindOf = Mock.kindsOf cl.ctx := by
         rw [kinds_of_fieldsTyped hf, hc2, chiTys_fst]
       have hfr : x.id ∉ Γ0.ids := by rw [← hbid]; exact fresh_of_nodup_snoc hn
-      obtain ⟨k, cfg', X', hs', h1, hm, hfr', h2, h3, h4, h5, h6⟩ := switch_x3 L hndL hheap hfitX RX
+      obtain ⟨k, cfg', X', hs', h1, hm, hfr', h2, h3, h4, ⟨r, _, h5, hcv⟩, h6⟩ := switch_x3 L hndL hheap hfitX RX
         hfits hb'id (mem_ids_keys hk0 hfr) hc1 hkinds
         (by
           simp only [WithinCapacity, List.length_append] at hcap
           rw [keys_length hk0]; exact hcap) X3h hrunX hatX
         (by
           simp only [List.length_append] at hcap2
-          rw [keys_length hk0]; exact hcap2)
+          rw [keys_length hk0]; exact hcap2) CVh
       exact ⟨cfg', hs', X', hm, by omega, FrLe.mono' hfr' (by omega),
-        ⟨Γ0' ++ cl.ctx, ι, keys_append hk0 rfl, h4, h5, h6⟩, clausesOK_nth hok hc1⟩
+        ⟨Γ0' ++ cl.ctx, ι, _, τ, keys_append hk0 rfl, h4, h5, hcv, h6⟩⟩
   | @invoke _ Γa b x tag ty args sig hn hsplit hb hs hs' =>
-    exact absurd hok (by simp [StmtOK])
+    subst hsplit
+    obtain ⟨ρ', v, rfl, hρ', hv⟩ := Pos.env_last henv
+    have hbid : b.var.id = x.id := congrArg (·.1) hb
+    have hbchi : b.chi = .cns := congrArg (·.2.1) hb
+    have hbty : b.ty = ty := congrArg (·.2.2) hb
+    rw [hbchi, hbty] at hv
+    have hlen : (ρ' ++ [v]).length = (Γa ++ [b]).length := by
+      rw [henv.length_eq, Pos.chiTys_length]
+    have hcnd : ¬ (b.var.id ≠ x.id ∨ (ρ' ++ [v]).length ≠ (Γa ++ [b]).length) := by
+      simp [hbid, hlen]
+    obtain ⟨d, xt, i, hd, hx, hxs, htp'⟩ := Pos.tagPosition_ok hs
+    cases hv with
+    | clo hd' hm hf hcl' =>
+      rename_i d' Γc env cs
+      have := Pos.lookupTypeDecl_unique hd hd'
+      subst this
+      obtain ⟨cl, hc1, hc2, hc3⟩ := Pos.nthClause_ok d.xtors cs i xt hm hx
+      have hal : (Γa ++ [b]).length - 1 = cl.ctx.length := by
+        have : Γa.length = cl.ctx.length := by
+          rw [← Pos.chiTys_length Γa, hs', ← hxs, hc2, Pos.chiTys_length]
+        simp [this]
+      simp only [Pos.step, List.getLast?_concat, if_neg hcnd, htp', hc1, hal, ne_eq, not_true_eq_false,
+        if_false, List.dropLast_concat]
+      intro hcap hcap2
+      obtain ⟨Γa', b', rfl, hk0, hkb⟩ := keys_snoc hk
+      have hb'id : b'.var.id = x.id := by
+        have := congrArg (·.1) hkb
+        simp only [Binding.key] at this
+        rw [this]; exact hbid
+      have hkinds : env.map Sim2.kindOf = Mock.kindsOf Γc := by
+        rw [kinds_of_fieldsTyped hf, chiTys_fst]
+      have hfr : x.id ∉ Γa.ids := by rw [← hbid]; exact fresh_of_nodup_snoc hn
+      have hargs : Γa'.map (·.chi) = cl.ctx.map (·.chi) := by
+        rw [keys_chi hk0]
+        have h1 : Ctx.chiTys Γa = Ctx.chiTys cl.ctx := by rw [hs', ← hxs, hc2]
+        have := congrArg (List.map (·.1)) h1
+        simpa [Ctx.chiTys, Function.comp_def] using this
+      have hlenEnv : env.length = Γc.length := by
+        have := congrArg List.length hkinds
+        simpa [Mock.kindsOf] using this
+      obtain ⟨k, cfg', X', hs', envCtx', hke, h1, hmr, hfr', h2, h3, h4, ⟨r, _, h5, hcv⟩, h6⟩ :=
+        invoke_x3 L hndL hheap hfitX hcl RX hfits hb'id
+          (mem_ids_keys hk0 hfr) htp' hc1
+          (fun d0 hd0 => by
+            have := Pos.lookupTypeDecl_unique hd hd0
+            subst this
+            exact clausesMatch_length _ _ hm)
+          hargs hkinds
+          (by simpa [WithinCapacity] using hcap) X3h hrunX hatX
+          (by simpa using hcap2) CVh
+      exact ⟨cfg', hs', X', hmr, by omega, FrLe.mono' hfr' (by omega),
+        ⟨cl.ctx ++ envCtx', ι, _, τ, keys_append rfl hke, h4, h5, hcv, h6⟩⟩
 
 theorem withinCapacity_of_le {Γ : Ctx} (h : Γ.length ≤ 14) : WithinCapacity Γ := by
   unfold WithinCapacity
   show 2 * Γ.length + 2 < 1000001
   omega
 
-include L hndL hheap hclean hfitX in
+include L hndL hheap hclean hicl hfitX in
 /-- THE THREE-WAY RUN: a terminating run of the positional machine from a represented state is reproduced
 by the RV64 machine -/
 theorem run3_aux (hooks : Bool) (prog : AxCut.Prog) (c : Nat) (code : List MockOp) (nargs c' : Nat)
     (hcomp : (compile mockSym hooks prog).run c = .ok ((code, nargs), c'))
     (hsafe : LabelSafe prog = true) (htp : LinTypedProg prog) (hfit : CodeFits code)
-    (DX : KDefsAt ks hooks prog) (hprog : ProgOK prog) :
+    (DX : KDefsAt ks hooks prog) :
     ∀ (fuel : Nat) (st : Pos.State) (acc : List (Bool × Word)) (cfg : Config) (hs : HState) (X : State)
       (v : Word),
       Pos.StateTyped prog st → (∀ st', Reachable prog st st' → st'.ctx.length ≤ 14) →
-      Rel3 mc α ks (Program.ofOps code) hooks prog st cfg hs X → StmtOK st.stmt →
+      Rel3 mc ks (Program.ofOps code) hooks prog st cfg hs X →
       cfg.next + fuel < 2 ^ 64 → Room hs (64 * 15 * fuel) →
       (Pos.runState prog fuel st acc).res = .done v →
       ∃ XL, Reach pr mc X XL ∧ ∀ fuel', (runLoop pr mc (fuel' + 1) XL).res = .done v
-  | 0, st, acc, cfg, hs, X, v, _, _, _, _, _, _, h => by simp [Pos.runState] at h
-  | fuel + 1, st, acc, cfg, hs, X, v, T, hcap, R, hok, hnext, hroom, h => by
-    have hsim := step3 L hndL hheap hclean hfitX hooks prog c code nargs c' hcomp hsafe htp hfit
-      DX hprog st cfg hs X R T (by unfold EnoughHeap; omega) hok (hroom.mono (by omega))
+  | 0, st, acc, cfg, hs, X, v, _, _, _, _, _, h => by simp [Pos.runState] at h
+  | fuel + 1, st, acc, cfg, hs, X, v, T, hcap, R, hnext, hroom, h => by
+    have hsim := step3 L hndL hheap hclean hicl hfitX hooks prog c code nargs c' hcomp hsafe htp hfit
+      DX st cfg hs X R T (by unfold EnoughHeap; omega) (hroom.mono (by omega))
     have hsafe' := Pos.step_safe htp st T
     have hw : ∃ rs lin lazy live F, InvS hs rs [] lin lazy live F := by
-      obtain ⟨Γ', ι, _, _, X3h, _⟩ := R
+      obtain ⟨Γ', ι, cw, τ, _, _, X3h, _⟩ := R
       obtain ⟨lin, lazy, live, Fr, I⟩ := X3h.href.conc
       exact ⟨_, lin, lazy, live, Fr, I⟩
     unfold StepSim3 at hsim
@@ -337,12 +416,12 @@ theorem run3_aux (hooks : Bool) (prog : AxCut.Prog) (c : Nat) (code : List MockO
       simp only [hst] at h hsim
       rw [hst] at hsafe'
       have hc' := hcap st' (Reachable.step Reachable.refl hst)
-      obtain ⟨cfg', hs', X', h1, h3, hfr, R', hok'⟩ := hsim (withinCapacity_of_le hc') hc'
+      obtain ⟨cfg', hs', X', h1, h3, hfr, R'⟩ := hsim (withinCapacity_of_le hc') hc'
       have hroom' : Room hs' (64 * 15 * fuel) :=
         (hroom.step hfr (by omega) hw).mono (by omega)
-      obtain ⟨XL, g1, g2⟩ := run3_aux hooks prog c code nargs c' hcomp hsafe htp hfit DX hprog fuel st'
+      obtain ⟨XL, g1, g2⟩ := run3_aux hooks prog c code nargs c' hcomp hsafe htp hfit DX fuel st'
         _ cfg' hs' X' v hsafe'
-        (fun st'' hr => hcap st'' (Scc.Props.C06Generic.reachable_prepend hst hr)) R' hok' (by omega)
+        (fun st'' hr => hcap st'' (Scc.Props.C06Generic.reachable_prepend hst hr)) R' (by omega)
         hroom' h
       exact ⟨XL, h1.trans g1, g2⟩
 
@@ -454,9 +533,9 @@ positional machine is reproduced by the RV64 machine on any line list that agree
 (header comments, the instructions, `cleanup:`) up to the text of comments and has no malformed hook. -/
 theorem programs_lines (p : AxCut.Prog) (args : List Word) (hooks : Bool) (instrs hdr : List Code)
     (nargs cX : Nat) (d0 : Def) (ops : List MockOp) (c' : Nat)
-    (hsafe : LabelSafe p = true) (htp : LinTypedProg p) (hprog : ProgOK p)
+    (hsafe : LabelSafe p = true) (htp : LinTypedProg p)
     (hcompM : (compile mockSym hooks p).run 0 = .ok ((ops, nargs), c')) (hfit : CodeFits ops)
-    (hcompX : (compile rvBackend hooks p).run 0 = .ok ((instrs, nargs), cX))
+    {cX0 : Nat} (hcompX : (compile rvBackend hooks p).run cX0 = .ok ((instrs, nargs), cX))
     (hnd : (labs (instrs ++ [Code.LAB "cleanup"])).Nodup) (hfitX : codeBase + 4 * instrs.length < 2 ^ 64)
     (hd : p.defs.head? = some d0) (hentry : ∀ b ∈ d0.ctx, b.chi = .ext ∧ b.ty = .i64)
     (hcap : ∀ st, Reachable p ⟨d0.ctx, args.map .int, d0.body⟩ st → st.ctx.length ≤ 14)
@@ -548,7 +627,7 @@ theorem programs_lines (p : AxCut.Prog) (args : List Word) (hooks : Bool) (instr
   -- the entry state
   obtain ⟨regs, hregs, _⟩ := entryRegs_spec args (by omega)
   have hbytes' : 128 ≤ mc.heapBytes := by omega
-  have X3i : X3 mc id d0.ctx (initConfig 0 args)
+  have X3i : X3 mc (fun _ => 0) (fun _ _ => 0) d0.ctx (initConfig 0 args)
       (Scc.Heap.init heapBase (heapBase + mc.heapBytes)) id { regs := regs, mem := ∅, pc := k1.length } :=
     x3_init hregs hlen (fun b hb => (hentry b hb).1) hc0 htop hbytes' id
   -- Theorem A at the entry
@@ -556,17 +635,18 @@ theorem programs_lines (p : AxCut.Prog) (args : List Word) (hooks : Bool) (instr
     (fun b hb => (hentry b hb).1) args hlen (withinCapacity_of_le hc0)
   have T : Pos.StateTyped p ⟨d0.ctx, args.map .int, d0.body⟩ :=
     ⟨htp d0 hmem, Pos.ints_typed d0.ctx args hlen hentry⟩
-  have X3a : X3 mc id d0.ctx (initConfig a args)
+  have X3a : X3 mc (fun _ => 0) (fun _ _ => 0) d0.ctx (initConfig a args)
       (Scc.Heap.init heapBase (heapBase + mc.heapBytes)) id { regs := regs, mem := ∅, pc := k1.length } :=
     X3i.absCongr (fun _ _ => rfl) rfl rfl
   -- over the entry label
   have hatL : KAt ks (State.pc { regs := regs, mem := ∅, pc := k1.length })
       (Code.LAB (d0.name.print ++ "_") :: ditems) := KAt.of_label hget hdat
   obtain ⟨hr1, hat1⟩ := pass_label L (cfg := mc) hatL (defLabel_ne_cleanup _)
-  have R3 : Rel3 mc id ks (Program.ofOps ops) hooks p ⟨d0.ctx, args.map .int, d0.body⟩ (initConfig a args)
+  have R3 : Rel3 mc ks (Program.ofOps ops) hooks p ⟨d0.ctx, args.map .int, d0.body⟩ (initConfig a args)
       (Scc.Heap.init heapBase (heapBase + mc.heapBytes))
       (setPS { regs := regs, mem := ∅, pc := k1.length } (k1.length + 1) 0) :=
-    ⟨d0.ctx, id, rfl, RX, X3R.setPS X3a _ _, kx, kx', ditems, hdrun, hat1⟩
+    ⟨d0.ctx, id, fun _ => 0, fun _ _ => 0, rfl, RX, X3R.setPS X3a _ _, cvals_of_ints RX.vals, kx, kx', ditems,
+      hdrun, hat1⟩
   have hfitK : codeBase + 4 * icount ks < 2 ^ 64 := by
     have h1 : icount ks ≤ instrs.length := by
       rw [e1, e2, icount_append, icount_append, icount_single]
@@ -588,9 +668,11 @@ theorem programs_lines (p : AxCut.Prog) (args : List Word) (hooks : Bool) (instr
       simp [Code.isInstr]
       omega
     omega
-  obtain ⟨XL, g1, g2⟩ := run3_aux L hndL hheap hclean hfitK hooks p 0 ops nargs c' hcompM hsafe htp hfit
-    DX hprog fuel _ [] (initConfig a args) _ _ v T hcap R3
-    (hprog d0 hmem) (by rw [hn1]; omega)
+  have hicl : (k1 ++ Code.LAB (d0.name.print ++ "_") :: k2').length + 1 = ks.length := by
+    rw [e1, e2]; simp only [List.length_append, List.length_cons, List.length_nil]
+  obtain ⟨XL, g1, g2⟩ := run3_aux L hndL hheap hclean hicl hfitK hooks p 0 ops nargs c' hcompM hsafe htp hfit
+    DX fuel _ [] (initConfig a args) _ _ v T hcap R3
+    (by rw [hn1]; omega)
     (room_init (by decide) (by omega) (by omega)) hrun'
   obtain ⟨fuel', hf⟩ := (hr1.trans g1).done g2
   refine ⟨fuel', ?_⟩
